@@ -88,6 +88,8 @@ func c03Specs(tier string, seed int) []c03Spec {
 	}
 	out = append(out, c03Spec{Kind: "e3", Batch: []string{"Ao", "A2", "Bo"}, Conc: 2, Bound: bound, Days: 3}, c03Spec{Kind: "e3", Batch: []string{"Bo", "A"}, Conc: 2, Bound: -1, Days: 2}, c03Spec{Kind: "e3", Batch: []string{"Ag", "A"}, Conc: 2, Bound: -1, Days: 2}, c03Spec{Kind: "e3", Batch: []string{"As", "A"}, Conc: 2, Bound: -1, Days: 2})
 	out = append(out, c03Spec{Kind: "race", Conc: 4}, c03Spec{Kind: "race", Conc: 8})
+	// ... and the real program (dispatcher included) built with the race detector on a batch file
+	out = append(out, c03Spec{Kind: "race-binary", Conc: 3}, c03Spec{Kind: "race-binary", Conc: 6})
 	// a project without configuration file (the first run generates one on disk): both orders of two lines with different overrides
 	out = append(out, c03Spec{Kind: "noconfig"})
 	// the same line again and again in fresh sessions (the runtime randomises map iteration per execution), with the
@@ -140,6 +142,7 @@ func init() {
 		Prepare: func(tier string) {
 			e3Prepare()
 			racePrepare()
+			os.Setenv("VERIF_RACE_HERMES2GO", mc.BuildRepoBinaryRace("hermes2go"))
 		},
 		Scenarios: func(tier string, seed int) []json.RawMessage { return mc.Specs(c03Specs(tier, seed)) },
 		Run:       c03Run,
@@ -318,6 +321,35 @@ func c03Run(raw json.RawMessage, c *mc.Ctx) {
 			}
 		})
 		c.Outcome("repeat-identical")
+	case "race-binary":
+		bin := os.Getenv("VERIF_RACE_HERMES2GO")
+		if bin == "" {
+			c.Outcome("race-pass-unavailable")
+			c.Count("race_pass_unavailable", 1)
+			return
+		}
+		w := buildBatchWorld(root, 40)
+		var b strings.Builder
+		for i, n := range []string{"A", "B", "Fsoil", "C", "A2", "Ag", "As", "Ca", "Cw", "Ftill", "Cu", "Ao", "Bo", "Ap", "A", "C"} {
+			fmt.Fprintf(&b, "%s resultfolder=%s\n", w.Lines[n], filepath.Join(root, "out", fmt.Sprintf("rb%d", i)))
+		}
+		bf := filepath.Join(root, "race_batch.txt")
+		os.WriteFile(bf, []byte(b.String()), 0o644)
+		cmd := exec.Command(bin, "-module", "batch", "-batch", bf, "-workingdir", root, "-concurrent", fmt.Sprint(sp.Conc))
+		cmd.Dir = root
+		cmd.Env = append(os.Environ(), "GORACE=halt_on_error=0 exitcode=66")
+		out, err := cmd.CombinedOutput()
+		c.Trace(1)
+		c.Transition(1)
+		c.State(mc.NewHasher().S("race-binary").I(sp.Conc).Sum())
+		if strings.Contains(string(out), "WARNING: DATA RACE") {
+			i := strings.Index(string(out), "WARNING: DATA RACE")
+			c.Violate("data-race", fmt.Sprintf("race detector report of the real program with -concurrent %d: %s", sp.Conc, tailStr(string(out)[i:min(len(out), i+1500)], 1500)), nil)
+		} else if err != nil {
+			c.Violate("race-pass-failed", fmt.Sprintf("the race-detector build of the real program failed on the batch: %v: %s", err, tailStr(string(out), 400)), nil)
+		} else {
+			c.Outcome("race-binary-clean")
+		}
 	case "race":
 		bin := os.Getenv(raceEnv)
 		if bin == "" || strings.HasPrefix(bin, "unavailable") {
